@@ -113,14 +113,18 @@ pub fn ref_validate(tree: &Tree) -> BTreeSet<Rule> {
                 val.rules.insert(Rule::ProbabilitiesNotEqual);
                 continue;
             }
-            let tot_a: f64 = first.iter().map(|(w, _)| w).sum();
-            let tot_b: f64 = outs.iter().map(|(w, _)| w).sum();
+            // each node's weights are first scaled by an exact power of two so that the largest is
+            // in [1, 2): sums and cross products then cannot overflow (weights near f64::MAX)
+            let scaled = |node: &[(f64, Tree)]| -> Vec<f64> {
+                let max = node.iter().map(|(w, _)| *w).fold(0.0, f64::max);
+                let factor = 2f64.powi(-(max.log2().floor() as i32).clamp(-1000, 1000));
+                node.iter().map(|(w, _)| w * factor).collect()
+            };
+            let (wa, wb) = (scaled(first), scaled(outs));
+            let tot_a: f64 = wa.iter().sum();
+            let tot_b: f64 = wb.iter().sum();
             // compared by cross multiplication; exact on the (small rational) alphabets in use
-            if first
-                .iter()
-                .zip(outs.iter())
-                .any(|((wa, _), (wb, _))| wa * tot_b != wb * tot_a)
-            {
+            if wa.iter().zip(wb.iter()).any(|(a, b)| a * tot_b != b * tot_a) {
                 val.rules.insert(Rule::ProbabilitiesNotEqual);
             }
         }
